@@ -190,6 +190,13 @@ func (prop) Run(t *testing.T, tape *kernel.Tape, sc kernel.Scenario) *kernel.Res
 	rtSchemes := [][]string{nil, {"http"}, {"https"}, {"http", "https"}, {"ws", "https", "http"}, {"http", "ws"}, {"http", "ws", "https"}, {"ws", "wss", "http", "https"}}[tape.Choose(8, "rt-schemes")]
 	opSchemes := [][]string{nil, {"http"}, {"https"}, {"http", "https"}, {"https", "http"}, {"ws", "wss"}, {"http", "ws", "https"}}[tape.Choose(7, "op-schemes")]
 	salt := uint64(tape.Choose(1<<16, "map-order-salt"))
+	// the Runtime is long-lived: other requests are built on it before and after the measured one
+	earlierFails := tape.Bool(4, "earlier-request-fails") // its params writer fails after setting a query parameter
+	earlierOther := tape.Bool(4, "earlier-request-other") // same operation id, other scheme list and values
+	laterOther := tape.Bool(3, "later-request")           // built afterwards: must not change the measured request
+	if earlierFails || earlierOther || laterOther {
+		env.Fault("other-requests-on-the-same-runtime")
+	}
 	res.Summary = fmt.Sprintf("base=%q pattern=%q values=%q caller=%v rt=%v op=%v", basePath, pattern, values, callerQ, rtSchemes, opSchemes)
 
 	// ---- reference
@@ -267,6 +274,26 @@ func (prop) Run(t *testing.T, tape *kernel.Tape, sc kernel.Scenario) *kernel.Res
 			}
 		}
 		rt := client.New("sim.local:8080", basePath, rtSchemes)
+		otherOp := func(fail bool) *runtime.ClientOperation {
+			return &runtime.ClientOperation{ID: "op", Method: "GET", PathPattern: "/other/{zz}", Schemes: []string{"ws", "http"},
+				ProducesMediaTypes: []string{"application/json"}, ConsumesMediaTypes: []string{"application/json"},
+				Params: runtime.ClientRequestWriterFunc(func(req runtime.ClientRequest, _ strfmt.Registry) error {
+					_ = req.SetPathParam("zz", "other")
+					_ = req.SetQueryParam("stale", "left-over")
+					_ = req.SetQueryParam("q", "stale-q")
+					_ = req.SetHeaderParam("X-Who", "other")
+					if fail {
+						return fmt.Errorf("params writer of an earlier request failed")
+					}
+					return nil
+				})}
+		}
+		if earlierFails {
+			_, _ = rt.CreateHttpRequest(otherOp(true))
+		}
+		if earlierOther {
+			_, _ = rt.CreateHttpRequest(otherOp(false))
+		}
 		w := &writer{path: values, order: ordered, query: callerQ, qkeys: callerKeys}
 		op := &runtime.ClientOperation{ID: "op", Method: "GET", PathPattern: pattern, Schemes: opSchemes, Params: w,
 			ProducesMediaTypes: []string{"application/json"}, ConsumesMediaTypes: []string{"application/json"}}
@@ -286,7 +313,16 @@ func (prop) Run(t *testing.T, tape *kernel.Tape, sc kernel.Scenario) *kernel.Res
 			gotErr = err
 			if err == nil {
 				gotURL = req.URL
-				got = req.URL.Scheme + "://" + req.URL.Host + req.URL.EscapedPath() + "?" + req.URL.RawQuery + "#" + req.URL.Fragment
+				render := func() string {
+					return req.URL.Scheme + "://" + req.URL.Host + req.URL.EscapedPath() + "?" + req.URL.RawQuery + "#" + req.URL.Fragment + fmt.Sprintf(" hdr=%v", headerDigest(req.Header))
+				}
+				got = render()
+				if laterOther {
+					_, _ = rt.CreateHttpRequest(otherOp(false))
+					if after := render(); after != got {
+						env.Violate("C10/request-changed-by-a-later-request", "later-request", "the request built first changed when another request was built on the same Runtime: was %s, now %s", got, after)
+					}
+				}
 			}
 		}); pm != "" {
 			env.Violate("C10/panic", "create", "CreateHttpRequest panicked: %s", pm)
@@ -354,6 +390,15 @@ func (prop) Run(t *testing.T, tape *kernel.Tape, sc kernel.Scenario) *kernel.Res
 	}
 	res.FromEnv(env)
 	return res
+}
+
+func headerDigest(h map[string][]string) []string {
+	var out []string
+	for k, v := range h {
+		out = append(out, k+"="+strings.Join(v, ","))
+	}
+	sort.Strings(out)
+	return out
 }
 
 func sameKeys(keys []string, m map[string]string) bool {
